@@ -133,7 +133,7 @@ class AnGen:
             return r.choice(['x', ''])
         return True
 
-    def case(self, fn=None, level=None, shape=None, mode=None, stream='main'):
+    def case(self, fn=None, level=None, shape=None, mode=None, stream='main', nowindow=None):
         r = self.r
         fn = fn or r.choice(ALL_FUNCS)
         if fn == 'rank':
@@ -147,21 +147,18 @@ class AnGen:
         okind = r.choice(['id2', 'id2', 'id2', 'id1id2', 'meas', 'single'])
         if fn == 'ratio_to_report':
             okind = 'none'
-        window = None
         if fn in AGG:
             mode = mode or r.choice(['rows', 'rows', 'range'])
             shape = shape or r.choice(FRAME_SHAPES)
-            if r.random() < 0.08 and stream == 'main':
+            if nowindow or (nowindow is None and r.random() < 0.08):
                 mode, shape = None, None            # no window clause
         else:
             mode = shape = None
         id2_type = 'Integer' if (mode == 'range' or r.random() < 0.7) else 'String'
         if mode == 'range':
-            probe = make_frame(random.Random(0), shape, mode)
             needs_num = any(k in 'PF' for k in shape.split('-'))
             if needs_num and okind not in ('id2',):
                 okind = 'id2'                        # an offset needs ONE numeric order component
-            del probe
         env, sizes, null_rate = self.dataset(fam, id2_type, distinct_meas=(okind == 'meas'))
         meas = env['DS_1']['meas']
         d = lambda: r.choice(['asc', 'desc', ''])    # noqa: E731
